@@ -258,11 +258,19 @@ macro_rules! impl_derivatives {
                 // It is built from the decaying exponential e^(-2|x|) only, because cosh (and,
                 // if the real part is itself a dual number, the square of its derivative parts)
                 // overflows long before tanh and its derivatives stop being finite.
+                // Below |x| = 10 the plain 1/cosh^2 is used: there nothing overflows, and the
+                // exponential form would lose relative accuracy in the derivative parts of a
+                // dual real part through 1 - e^(-2|x|) for small |x|.
                 let two = F::one() + F::one();
-                let e = (-(self.re.abs() * two)).exp();
-                let den = e.clone() + F::one();
                 let f0 = self.re.tanh();
-                let f1 = e * two * two / (den.clone() * den);
+                let f1 = if self.re().abs() < F::from(10.0).unwrap() {
+                    let rec = self.re.cosh().recip();
+                    rec.clone() * &rec
+                } else {
+                    let e = (-(self.re.abs() * two)).exp();
+                    let den = e.clone() + F::one();
+                    e * two * two / (den.clone() * den)
+                };
                 second!($deriv, let f2 = -f0.clone() * &f1 * two;);
                 third!($deriv, let f3 = (f0.clone() * &f0 * two - &f1) * &f1 * two;);
                 chain_rule!($deriv, Self::chain_rule(self, f0, f1, f2, f3))
